@@ -282,6 +282,17 @@ impl Value {
         match self {
             Value::F32(value) => Value::from_f32(value_type, value),
             Value::F64(value) => Value::from_f64(value_type, value),
+            Value::I8(_) | Value::I16(_) | Value::I32(_) | Value::I64(_)
+                if value_type == ValueType::F32 || value_type == ValueType::F64 =>
+            {
+                // Signed sources must keep their sign when converted to floating point.
+                let value = self.to_u64(addr_mask)? as i64;
+                Ok(if value_type == ValueType::F32 {
+                    Value::F32(value as f32)
+                } else {
+                    Value::F64(value as f64)
+                })
+            }
             _ => Value::from_u64(value_type, self.to_u64(addr_mask)?),
         }
     }
